@@ -122,6 +122,33 @@ func structEdits(b *Built, f *refxz.File, r *sim.Rng) []structEdit {
 						}}))
 				}
 			}
+			// sizes with high bits set (overflow-style edits)
+			for _, hb := range []uint{32, 40, 62} {
+				add("block-header-compressed-size", fmt.Sprintf("%s declares %d+2^%d", btag, bl.CompSize, hb),
+					rebuildStream(s, f, si, rebuildHook{block: func(i int, sp *refxz.BlockSpec) {
+						if i == bi {
+							sp.WithCompSize = true
+							sp.CompSizeOverride = u64p(uint64(bl.CompSize) + 1<<hb)
+						}
+					}}))
+				add("block-header-uncompressed-size", fmt.Sprintf("%s declares %d+2^%d", btag, bl.UncompSize, hb),
+					rebuildStream(s, f, si, rebuildHook{block: func(i int, sp *refxz.BlockSpec) {
+						if i == bi {
+							sp.WithUncomp = true
+							sp.UncompSizeOverride = u64p(uint64(bl.UncompSize) + 1<<hb)
+						}
+					}}))
+				add("index-unpadded-size", fmt.Sprintf("%s record +2^%d", btag, hb),
+					rebuildStream(s, f, si, rebuildHook{records: func(recs []refxz.Record) []refxz.Record {
+						recs[bi].Unpadded += 1 << hb
+						return recs
+					}}))
+				add("index-uncompressed-size", fmt.Sprintf("%s record +2^%d", btag, hb),
+					rebuildStream(s, f, si, rebuildHook{records: func(recs []refxz.Record) []refxz.Record {
+						recs[bi].Uncompressed += 1 << hb
+						return recs
+					}}))
+			}
 			// index record fields
 			for _, d := range []int64{1, -1, 4, -4} {
 				add("index-unpadded-size", fmt.Sprintf("%s record %+d", btag, d),
@@ -197,6 +224,9 @@ func structEdits(b *Built, f *refxz.File, r *sim.Rng) []structEdit {
 				records: func(recs []refxz.Record) []refxz.Record { return recs[:len(recs)-1] },
 				count:   func(n uint64) uint64 { return n - 1 }}))
 		}
+		for _, hb := range []uint{32, 62} {
+			add("index-record-count", fmt.Sprintf("%s count+2^%d", tag, hb), rebuildStream(s, f, si, rebuildHook{count: func(n uint64) uint64 { return n + 1<<hb }}))
+		}
 		add("index-record-count", tag+" extra record", rebuildStream(s, f, si, rebuildHook{
 			records: func(recs []refxz.Record) []refxz.Record {
 				return append(recs, refxz.Record{Unpadded: 24, Uncompressed: 0})
@@ -241,6 +271,13 @@ func structEdits(b *Built, f *refxz.File, r *sim.Rng) []structEdit {
 				continue
 			}
 			add("backward-size", fmt.Sprintf("%s %+d", tag, d*4), rebuildStream(s, f, si, rebuildHook{footer: func(f0, f1 *byte, b *uint32) { *b = uint32(bw) }}))
+		}
+		// backward size with high bits set / extreme values (arithmetic in too narrow a type)
+		for _, bw := range []uint32{uint32(st.IndexSize/4-1) | 1<<30, uint32(st.IndexSize/4-1) | 1<<31, uint32(st.IndexSize/4-1) + 3<<30, 0xFFFFFFFF, uint32(st.IndexSize/4-1) ^ 1<<uint(r.Range(2, 29))} {
+			if int(bw) == st.IndexSize/4-1 {
+				continue
+			}
+			add("backward-size", fmt.Sprintf("%s stored value %#x (index is %d bytes)", tag, bw, st.IndexSize), rebuildStream(s, f, si, rebuildHook{footer: func(f0, f1 *byte, b *uint32) { *b = bw }}))
 		}
 		// footer flags differ from header flags, both valid
 		for _, id := range []byte{0, 1, 4, 10} {
